@@ -86,6 +86,25 @@ def _spec_path_dirs():
     return [SPEC, os.path.join(SPEC, 'mc'), os.path.join(SPEC, 'gen'), os.path.join(SPEC, 'trace')]
 
 
+def prove(module, timeout=900):
+    """Checks the TLAPS proofs of spec/<module>.tla with tlapm (in a scratch directory).  -> number of obligations.
+    A proof that does not check is a failure of the machinery (the committed proofs are green), never a verdict
+    about the code."""
+    import shutil
+    d = tempfile.mkdtemp(prefix='verif-prove-')
+    try:
+        shutil.copy(os.path.join(SPEC, module + '.tla'), d)
+        t0 = time.time()
+        p = subprocess.run(['tlapm', module + '.tla'], cwd=d, stdout=subprocess.PIPE, stderr=subprocess.STDOUT,
+                           text=True, timeout=timeout)
+        m = re.search(r'All (\d+) obligations? proved', p.stdout)
+        if not m:
+            raise MachineryError('tlapm did not prove %s:\n%s' % (module, p.stdout[-2000:]))
+        return dict(module=module, obligations=int(m.group(1)), wall_s=round(time.time() - t0, 1))
+    finally:
+        shutil.rmtree(d, ignore_errors=True)
+
+
 def tlc_cmd(module_path, cfg_path, workers=1, metadir=None, extra=(), xmx='3g', xss='64m', deque=False):
     libpath = os.pathsep.join(_spec_path_dirs())
     cmd = ['java', '-XX:+UseParallelGC', '-Xmx' + xmx, '-Xss' + xss,
